@@ -1,7 +1,7 @@
 CONSTANTS
   NK = 1500
   NV = 3
-  MaxVer = 8
+  MaxVer = 16
   MaxLen = 36
   NR = 2
   Impl = "bptree"
